@@ -356,7 +356,7 @@ InSeq(x, b) == \E q \in 1..Len(b) : b[q] = x
 RECURSIVE LvNames(_)
 RECURSIVE LvNamesSeq(_, _, _)
 LvNamesSeq(xs, i, acc) == IF i > Len(xs) \/ Len(acc) < 0 THEN acc ELSE LvNamesSeq(xs, i + 1, acc \o LvNames(xs[i]))
-LvNames(lv) == IF lv.k = "id" THEN <<lv.x>> ELSE IF lv.k = "ignore" THEN <<>> ELSE LvNamesSeq(lv.xs, 1, <<>>)
+LvNames(lv) == IF lv.k = "id" THEN <<lv.x>> ELSE IF lv.k \in {"ignore", "lit", "lity"} THEN <<>> ELSE LvNamesSeq(lv.xs, 1, <<>>)
 \* names an expression declares in the scope it is evaluated in
 RECURSIVE Decls(_)
 RECURSIVE DeclsSeq(_, _, _)
@@ -366,6 +366,7 @@ Decls(e) == CASE e.n = "decl" -> LvNames(e.x)
               [] e.n = "seq" -> DeclsSeq(e.es, 1, <<>>)
               [] e.n = "if" -> Decls(e.a) \o (IF e.b.n = "none" THEN <<>> ELSE Decls(e.b))
               [] e.n = "try" -> Decls(e.b)
+              [] e.n = "switch" -> Decls(e.e)
               [] OTHER -> <<>>
 
 FzOk(e) == [ok |-> TRUE, e |-> e]
@@ -374,6 +375,9 @@ RECURSIVE Frz(_, _, _, _)
 RECURSIVE FrzList(_, _, _, _, _, _, _)
 RECURSIVE FrzClauses(_, _, _, _, _, _)
 RECURSIVE FrzParams(_, _, _, _, _, _)
+RECURSIVE FrzLv(_, _, _, _)
+RECURSIVE FrzLvSeq(_, _, _, _, _, _)
+RECURSIVE FrzArms(_, _, _, _, _, _)
 \* a list of expressions; thread = TRUE: each element's declarations are bound for the following ones
 FrzList(st, env, es, i, b, acc, thread) ==
     IF i > Len(es) \/ Len(acc) < 0 THEN [ok |-> TRUE, es |-> acc, b |-> b]
@@ -407,6 +411,23 @@ FrzParams(st, env, ps, i, b, acc) ==
     IF i > Len(ps) \/ Len(acc) < 0 THEN [ok |-> TRUE, ps |-> acc]
     ELSE LET f == FrzOpt(st, env, ps[i].d, b)
          IN IF ~f.ok THEN [ok |-> FALSE, ps |-> acc] ELSE FrzParams(st, env, ps, i + 1, b, Append(acc, [ps[i] EXCEPT !.d = f.e]))
+
+\* a pattern: only `literally e` holds code; it runs BEFORE the pattern binds anything, so it sees b
+FrzLv(st, env, lv, b) ==
+    CASE lv.k = "lity" -> LET f == Frz(st, env, lv.e, b) IN IF f.ok THEN [ok |-> TRUE, lv |-> [lv EXCEPT !.e = f.e]] ELSE [ok |-> FALSE, lv |-> lv]
+      [] lv.k = "tuple" -> LET f == FrzLvSeq(st, env, lv.xs, 1, b, <<>>) IN [ok |-> f.ok, lv |-> [lv EXCEPT !.xs = f.xs]]
+      [] OTHER -> [ok |-> TRUE, lv |-> lv]
+FrzLvSeq(st, env, xs, i, b, acc) ==
+    IF i > Len(xs) \/ Len(acc) < 0 THEN [ok |-> TRUE, xs |-> acc]
+    ELSE LET f == FrzLv(st, env, xs[i], b)
+         IN IF ~f.ok THEN [ok |-> FALSE, xs |-> acc] ELSE FrzLvSeq(st, env, xs, i + 1, b, Append(acc, f.lv))
+\* the arms of a switch: each is a scope of its own in which the pattern's names are bound
+FrzArms(st, env, arms, i, b, acc) ==
+    IF i > Len(arms) \/ Len(acc) < 0 THEN [ok |-> TRUE, arms |-> acc]
+    ELSE LET p == FrzLv(st, env, arms[i].p, b)
+             x == Frz(st, env, arms[i].b, b \o LvNames(arms[i].p))
+         IN IF ~p.ok \/ ~x.ok THEN [ok |-> FALSE, arms |-> acc]
+            ELSE FrzArms(st, env, arms, i + 1, b, Append(acc, [p |-> p.lv, b |-> x.e]))
 
 Frz(st, env, e, b) ==
     CASE e.n \in {"lit", "frozen", "cont", "none", "struct", "eval"} -> FzOk(e)      \* (the argument of eval is data)
@@ -443,6 +464,8 @@ Frz(st, env, e, b) ==
       [] e.n \in {"ret", "throw", "freeze"} -> LET x == Frz(st, env, e.e, b) IN IF x.ok THEN FzOk([e EXCEPT !.e = x.e]) ELSE FzFail
       [] e.n = "try" -> LET x == Frz(st, env, e.b, b)  h == Frz(st, env, e.h, Append(b \o Decls(e.b), e.x))
                         IN IF x.ok /\ h.ok THEN FzOk([e EXCEPT !.b = x.e, !.h = h.e]) ELSE FzFail
+      [] e.n = "switch" -> LET x == Frz(st, env, e.e, b)  a == FrzArms(st, env, e.arms, 1, b \o Decls(e.e), <<>>)
+                           IN IF x.ok /\ a.ok THEN FzOk([e EXCEPT !.e = x.e, !.arms = a.arms]) ELSE FzFail
       [] e.n = "lam" -> LET ps == FrzParams(st, env, e.ps, 1, b, <<>>)
                             x == Frz(st, env, e.b, b \o [q \in 1..Len(e.ps) |-> e.ps[q].x])
                         IN IF ps.ok /\ x.ok THEN FzOk([e EXCEPT !.ps = ps.ps, !.b = x.e]) ELSE FzFail
@@ -472,6 +495,9 @@ RECURSIVE ModEvery(_, _, _, _, _)
 RECURSIVE ModEach(_, _, _, _, _, _, _)
 RECURSIVE BindLv(_, _, _, _)
 RECURSIVE BindTuple(_, _, _, _, _)
+RECURSIVE EvLv(_, _, _)
+RECURSIVE EvLvSeq(_, _, _, _, _)
+RECURSIVE SwitchArms(_, _, _, _, _)
 
 \* evaluate a list of expressions left to right; v of the result is the sequence of values
 EvList(st, env, es, i, acc) ==
@@ -499,6 +525,7 @@ EvIxs(st, env, ixs, i, acc) ==
 BindLv(st, env, lv, v) ==
     IF lv.k = "id" THEN DeclVar(st, env, lv.x, v)
     ELSE IF lv.k = "ignore" THEN [ok |-> TRUE, st |-> st]
+    ELSE IF lv.k = "lit" THEN [ok |-> VEq(lv.v, v), st |-> st]      \* a literal pattern matches an equal value
     ELSE \* tuple: the value must be a sequence of exactly that many items
          LET xs == AsList(v)
          IN IF ~xs.ok \/ Len(xs.l) # Len(lv.xs) THEN [ok |-> FALSE, st |-> st]
@@ -507,6 +534,28 @@ BindTuple(st, env, lvs, vals, i) ==
     IF i > Len(lvs) THEN [ok |-> TRUE, st |-> st]
     ELSE LET b == BindLv(st, env, lvs[i], vals[i])
          IN IF ~b.ok THEN b ELSE BindTuple(b.st, env, lvs, vals, i + 1)
+
+(* A pattern is evaluated before it is matched (the implementation's eval_lvalue): `literally e`     *)
+(* becomes the literal pattern of e's value; a throw in e leaves the whole statement.                 *)
+EvLv(st, env, lv) ==
+    CASE lv.k = "lity" -> LET r == Ev(st, env, lv.e) IN IF IsVal(r) THEN [r EXCEPT !.v = [k |-> "lit", v |-> r.v]] ELSE r
+      [] lv.k = "tuple" -> LET r == EvLvSeq(st, env, lv.xs, 1, <<>>) IN IF IsVal(r) THEN [r EXCEPT !.v = [k |-> "tuple", xs |-> r.v]] ELSE r
+      [] OTHER -> RVal(st, lv)
+EvLvSeq(st, env, xs, i, acc) ==
+    IF i > Len(xs) \/ Len(acc) < 0 THEN [st |-> st, k |-> "val", v |-> acc, lv |-> 0, hv |-> FALSE]
+    ELSE LET r == EvLv(st, env, xs[i])
+         IN IF ~IsVal(r) THEN r ELSE EvLvSeq(r.st, env, xs, i + 1, Append(acc, r.v))
+(* switch: the arms are tried in order, each in a fresh scope in which its pattern is evaluated,    *)
+(* then matched (declaring its names), then the body runs; a pattern that does not match - for      *)
+(* whatever reason - passes to the next arm; no arm left is an error.                               *)
+SwitchArms(st, env, arms, i, v) ==
+    IF i > Len(arms) THEN RThr(st, "no case")
+    ELSE LET st1 == NewEnv(st, env)
+             ee == LastEnv(st1)
+             rp == EvLv(st1, ee, arms[i].p)
+         IN IF ~IsVal(rp) THEN rp
+            ELSE LET m == BindLv(rp.st, ee, rp.v, v)
+                 IN IF m.ok THEN Ev(m.st, ee, arms[i].b) ELSE SwitchArms(m.st, env, arms, i + 1, v)
 
 (* Parameters (the implementation's assign_all): without a splat, missing trailing arguments are   *)
 (* filled from the parameters' defaults, which are all evaluated in the new scope BEFORE any       *)
@@ -809,6 +858,9 @@ Ev(st, env, e) ==
                ELSE LET st1 == NewEnv(r.st, env)  \* the catch clause opens one
                         b == DeclVar(st1, LastEnv(st1), e.x, r.v)
                     IN Ev(b.st, LastEnv(st1), e.h)
+      [] e.n = "switch" ->
+            LET rs == Ev(st, env, e.e)
+            IN IF ~IsVal(rs) THEN rs ELSE SwitchArms(rs.st, env, e.arms, 1, rs.v)
       [] e.n = "lam" ->
             LET st1 == [st EXCEPT !.clos = Append(@, [ps |-> e.ps, b |-> e.b, env |-> env])]
             IN RVal(st1, [t |-> "fn", id |-> Len(st1.clos)])
